@@ -28,15 +28,55 @@ ASSUMPTIONS = ['values in the calibrated faithful domain (per value and per whol
 KINDS = ['memory', 'file', 's3', 'async']
 
 
-def run_case(ctx, case_seed, kind=None):
+def reuse_sent_objects(prog):
+    """The service keeps working on an object after it has sent it to an output (a reused page / send buffer): a 'mutate' step
+    follows every top level output call that was given a variable."""
+    body = []
+    for st in prog['body']:
+        body.append(st)
+        if st['op'] == 'out':
+            for a in list(st['args']) + list(st['kwargs'].values()):
+                if 'var' in a:
+                    body.append({'op': 'mutate', 'var': a['var']})
+                    break
+    prog['body'] = body
+
+
+class BufferWorld(World):
+    """in0 hands out a mutable page buffer (a list / dict / object, by the seed)."""
+    def outcome(self, io, name, ralias, captured):
+        from vlib.values import Obj
+        if self.poison or io != 'in':
+            return World.outcome(self, io, name, ralias, captured)
+        return ('value', [{'page': 0, 'rows': [1, 2]}, [0, [1, 2]], Obj(page=0, rows=[1, 2])][self.seed % 3])
+
+
+def reused_buffer_program(seed):
+    from checks.C04_sched import _in, _out
+    send = lambda var: {'op': 'out', 'decl': 'out0', 'args': [{'var': 'a'}], 'kwargs': {}, 'var': var}
+    return {'seed_world': seed, 'class_level': False, 'extractor': None, 'params': {'copy': True}, 'opts': {'raise_rate': 0.0},
+            'uid': 975000 + seed % 1000, 'inputs': [_in('in0', 'export.load_page')], 'outputs': [_out('out0', 'export.send_page')],
+            'body': [{'op': 'in', 'decl': 'in0', 'args': [{'lit': 1}], 'kwargs': {}, 'var': 'a'}, send('b'), {'op': 'mutate', 'var': 'a'}, send('c'),
+                     {'op': 'mutate', 'var': 'a'}, {'op': 'out', 'decl': 'out0', 'args': [{'lit': 'tail'}], 'kwargs': {}, 'var': 'd'}], 'gen_seed': seed}
+
+
+def run_case(ctx, case_seed, kind=None, prog=None, world_cls=World):
     from playback.tape_recorder import TapeRecorder
     rng = random.Random(case_seed)
     kind = kind or KINDS[case_seed % len(KINDS)]
-    prog = gen_program(rng)
-    if prog['outputs'] and case_seed % 4 == 1:
+    directed = prog is not None
+    prog = prog or gen_program(rng)
+    if prog['outputs'] and case_seed % 4 == 1 and not directed:
         prog['extractor'] = 'ok_calls_output'    # user code that runs after the operation ended (the metadata extractor) uses an intercepted output too
+    if case_seed % 5 == 2 and not directed:
+        reuse_sent_objects(prog)
+        # (without copy-on-interception the recording holds the very objects the service goes on modifying - that is what the flag is for)
+        prog['params'] = dict(prog.get('params') or {}, copy=True)
+        ctx.count('programs_that_keep_working_on_sent_objects')
     desc = describe(prog)
     w = {'case_seed': case_seed, 'cassette': kind, 'program': desc}
+    if directed:
+        w['reused_buffer'] = True
     with open_box('memory' if kind == 'async' else kind, prefix=rng.choice(['', 'p'])) as box:
         inner = box.cassette
         spy = SpyCassette(async_over(inner) if kind == 'async' else inner)
@@ -49,7 +89,7 @@ def run_case(ctx, case_seed, kind=None):
             from vlib.history import give_past
             give_past(rec, spy, case_seed + 5000, ctx, like=prog)
             ctx.count('cases_with_recorder_history')
-        live = Built(prog, rec, World(prog['seed_world'], raise_rate=prog['opts']['raise_rate']))
+        live = Built(prog, rec, world_cls(prog['seed_world'], raise_rate=prog['opts']['raise_rate']))
         out_live = live.run('live')
         if kind == 'async':
             spy.inner.close()
@@ -216,6 +256,9 @@ def run(ctx):
     base = ctx.seed * 1000003 + ctx.shard * 1000000
     for i in range(n):
         run_case(ctx, base + i)
+    for i in range(ctx.budget(24, 240)):
+        run_case(ctx, i, prog=reused_buffer_program(i), world_cls=BufferWorld)
+        ctx.count('reused_buffer_cases')
     for i in range(2):
         ctx.sample(describe(gen_program(random.Random(base + i))))
     if not ctx.counters.get('calls_compared'):
@@ -223,4 +266,6 @@ def run(ctx):
 
 
 def replay(ctx, w):
+    if w.get('reused_buffer'):
+        return run_case(ctx, w['case_seed'], w.get('cassette'), prog=reused_buffer_program(w['case_seed']), world_cls=BufferWorld)
     run_case(ctx, w['case_seed'], w.get('cassette'))
